@@ -596,6 +596,10 @@ func checkC01(p *Program, r *Report) {
 
 	c01membership(p, r, addrTypes)
 	c01hashing(p, r, addrTypes)
+	c01total(p, r, addrTypes)
+	// round 5 (C01-agent5-m2): a public-key serialisation assembled from big.Int.Bytes() loses leading zero bytes
+	padObligations(p, r, "C01.pad", pkgFuncs(p, ""))
+	r.Floor("C01.pad", 0)
 	// lazily cached renderings must follow what they were computed from
 	for _, nt := range addrTypes {
 		memoCoherence(p, r, "C01.memo", "", nt.Obj().Name(), nil)
@@ -1008,4 +1012,145 @@ var c01AcceptsAllow = []string{
 	`call encoding/hex\.DecodeString#1`,                                                                                           // public-key stage
 	`call .*base58\.CheckDecode#[0-2]`, `len\(call .*base58\.CheckDecode#0\)`, `global ErrChecksum`, `global ErrChecksumMismatch`, // Base58Check stage
 	`call .*chaincfg\.IsPubKeyHashAddrID`, `call .*chaincfg\.IsScriptHashAddrID`, // the registry's kind of the version byte
+}
+
+// opaqueUses lists the uses of v (a byte slice) that look at its CONTENT other than by copying it out: an element
+// read, a comparison, a hand-over to code outside the repository.  len(v), copy(dst, v), append(dst, v...), re-slicing
+// and hand-over to an in-repo function (followed into that function's parameter) are content-blind.
+func opaqueUses(p *Program, v ssa.Value, depth int, seen map[ssa.Value]bool) []string {
+	if seen[v] || depth > 6 {
+		return nil
+	}
+	seen[v] = true
+	var out []string
+	refs := v.Referrers()
+	if refs == nil {
+		return nil
+	}
+	for _, ref := range *refs {
+		switch x := ref.(type) {
+		case *ssa.DebugRef:
+		case *ssa.Slice:
+			if x.X == v {
+				out = append(out, opaqueUses(p, x, depth, seen)...)
+			}
+		case *ssa.Phi:
+			out = append(out, opaqueUses(p, x, depth, seen)...)
+		case *ssa.ChangeType:
+			out = append(out, opaqueUses(p, x, depth, seen)...)
+		case *ssa.Call:
+			com := &x.Call
+			if b, ok := com.Value.(*ssa.Builtin); ok {
+				switch b.Name() {
+				case "len", "cap":
+					continue
+				case "copy":
+					if len(com.Args) == 2 && com.Args[1] == v && com.Args[0] != v {
+						continue
+					}
+				case "append":
+					if len(com.Args) == 2 && com.Args[1] == v && com.Args[0] != v {
+						continue
+					}
+				}
+				out = append(out, fmt.Sprintf("%s(…) at %s", b.Name(), p.Pos(x.Pos())))
+				continue
+			}
+			cal := com.StaticCallee()
+			if cal != nil && p.InRepo(cal) && len(cal.Blocks) > 0 {
+				for i, a := range com.Args {
+					if a == v && i < len(cal.Params) {
+						out = append(out, opaqueUses(p, cal.Params[i], depth+1, seen)...)
+					}
+				}
+				continue
+			}
+			out = append(out, fmt.Sprintf("handed to %s at %s", calleeName(com), p.Pos(x.Pos())))
+		case *ssa.IndexAddr:
+			out = append(out, fmt.Sprintf("element access at %s", p.Pos(x.Pos())))
+		case *ssa.Store:
+			if x.Val == v {
+				// kept in a variable or a field: follow loads of a local, refuse anything else
+				if al, ok := x.Addr.(*ssa.Alloc); ok {
+					for _, r2 := range *al.Referrers() {
+						if ld, ok := r2.(*ssa.UnOp); ok && ld.Op == token.MUL {
+							out = append(out, opaqueUses(p, ld, depth, seen)...)
+						}
+					}
+					continue
+				}
+				out = append(out, fmt.Sprintf("stored at %s", p.Pos(x.Pos())))
+			}
+		case *ssa.BinOp:
+			if isNilConst(x.X) || isNilConst(x.Y) {
+				continue
+			}
+			out = append(out, fmt.Sprintf("compared at %s", p.Pos(x.Pos())))
+		case *ssa.Range, *ssa.Lookup, *ssa.Index:
+			out = append(out, fmt.Sprintf("element access at %s", p.Pos(ref.Pos())))
+		case *ssa.MakeInterface, *ssa.Convert:
+			out = append(out, fmt.Sprintf("converted at %s", p.Pos(ref.Pos())))
+		case *ssa.SliceToArrayPointer:
+			// [N]byte(v) / (*[N]byte)(v): a copy-out of the whole value when only loaded once; treat the pointer's loads as copy
+			continue
+		default:
+			out = append(out, fmt.Sprintf("%T at %s", ref, p.Pos(ref.Pos())))
+		}
+	}
+	return out
+}
+
+// c01total (round 5, C01-agent5-m3): the hash-taking constructors accept every hash of the right length — they treat
+// the bytes as opaque.  A constructor (or a validation helper it calls) that looks at the content can refuse a hash
+// that the format encodes perfectly well (the all-zero "burn" hash), and then that address no longer round-trips.
+func c01total(p *Program, r *Report, addrTypes []*types.Named) {
+	root := p.Pkg("")
+	n := 0
+	for _, fn := range pkgFuncs(p, "") {
+		if fn.Pkg != root || fn.Parent() != nil || fn.Signature.Recv() != nil || len(fn.Params) == 0 || errResultIndex(fn) < 0 {
+			continue
+		}
+		nt := namedOf(fn.Signature.Results().At(0).Type())
+		isAddr := false
+		for _, a := range addrTypes {
+			if a == nt {
+				isAddr = true
+			}
+		}
+		if !isAddr || arrayFieldLen(nt) <= 0 {
+			continue
+		}
+		sl, ok := fn.Params[0].Type().Underlying().(*types.Slice)
+		if !ok {
+			continue
+		}
+		if b, ok := sl.Elem().Underlying().(*types.Basic); !ok || b.Kind() != types.Uint8 {
+			continue
+		}
+		// script-taking constructors hash their argument (C01.hashing decides those)
+		hashes := false
+		for _, ref := range *fn.Params[0].Referrers() {
+			if c, ok := ref.(*ssa.Call); ok && c.Call.StaticCallee() != nil && len(c.Call.Args) == 1 {
+				if _, isSl := c.Type().Underlying().(*types.Slice); isSl {
+					hashes = true
+				}
+			}
+		}
+		if hashes {
+			continue
+		}
+		n++
+		uses := opaqueUses(p, fn.Params[0], 0, map[ssa.Value]bool{})
+		sort.Strings(uses)
+		uses = dedup(uses)
+		how := "the hash is only measured (len) and copied into the address"
+		if len(uses) > 0 {
+			how = "content-dependent uses: " + strings.Join(uses, "; ")
+		}
+		r.Add("C01.total", FnName(fn), "the hash-taking constructor treats the hash bytes as opaque (every hash of the right length is accepted)", fn.Pos(), len(uses) == 0, how)
+	}
+	if n == 0 {
+		r.Unresolved("C01.total", "hash-taking address constructors")
+	}
+	r.Floor("C01.total", 3)
 }
